@@ -18,6 +18,8 @@ EXTENDS Integers, Sequences, FiniteSets, TLC, Json
 CONSTANTS Tree,        \* set of paths (sequences of component strings) present on disk
           Hidden,      \* subset: hidden (dot) paths
           GitIgnored,  \* subset: matched by .gitignore
+          Quoted,      \* subset: paths that git writes as a quoted string in diff headers
+          FixQ1,       \* TRUE = quoted diff paths are unquoted (repaired), FALSE = taken literally (as first coded)
           GlobPool,    \* set of glob records [form, arg]
           MaxGlobs, MaxIgnores, MaxDiff,
           FixS1,
@@ -51,7 +53,13 @@ Allow(gs, term) == IF gs = {} THEN (IF term THEN Walkable ELSE {}) ELSE {p \in W
 \* the path blockwatch derives from the diff header "+++ b/<dirs>/<base>"
 RECURSIVE StripAllB(_)
 StripAllB(ds) == IF ds # <<>> /\ Head(ds) = "b" THEN StripAllB(Tail(ds)) ELSE ds
-Derived(p) == IF FixS1 THEN p ELSE [dirs |-> StripAllB(p.dirs), base |-> p.base, ext |-> p.ext]
+\* Q1: git writes a path with "unusual" characters (any non-ASCII byte under the default core.quotePath, control
+\* characters, double quote, backslash) as a C-style quoted string: +++ "b/caf\303\251.py".  As first coded the
+\* quoted string was taken for the path itself: no such file, no grammar for its "extension" -- skipped silently.
+Ghost(p) == [dirs |-> <<"\"b">> \o p.dirs, base |-> p.base, ext |-> "none"]
+IsGhost(p) == ~FixQ1 /\ \E x \in Quoted : p = Ghost(x)
+Derived(p) == IF ~FixQ1 /\ p \in Quoted THEN Ghost(p)
+              ELSE IF FixS1 THEN p ELSE [dirs |-> StripAllB(p.dirs), base |-> p.base, ext |-> p.ext]
 
 Init ==
   /\ globs \in {s \in SUBSET GlobPool : Cardinality(s) <= MaxGlobs}
@@ -79,7 +87,7 @@ DiffFile ==
   /\ pc = "diff" /\ leftover # {}
   /\ \E p \in (IF AnyOrder THEN leftover ELSE {CHOOSE x \in leftover : TRUE}) :
        /\ leftover' = leftover \ {p}
-       /\ examined' = IF MatchAny(ignores, p) THEN examined ELSE examined \cup {p}
+       /\ examined' = IF MatchAny(ignores, p) \/ IsGhost(p) THEN examined ELSE examined \cup {p}   \* ghost: no such file, no grammar -- skipped
   /\ UNCHANGED <<globs, ignores, diffPaths, terminal, todoWalk, pc>>
 DiffDone == /\ pc = "diff" /\ leftover = {} /\ pc' = "done"
             /\ UNCHANGED <<globs, ignores, diffPaths, terminal, todoWalk, leftover, examined>>
@@ -88,10 +96,12 @@ Spec == Init /\ [][Next]_vars
 
 Expected == (Allow(globs, terminal) \cup diffPaths) \ {p \in Tree : MatchAny(ignores, p)}
 Done == pc = "done"
-ExaminedIsExpected == Done /\ FixS1 => examined = Expected
+ExaminedIsExpected == Done /\ FixS1 /\ FixQ1 => examined = Expected
+\* with quoted paths taken literally the only difference is a diff naming a file whose path git quotes
+Q1IsTheOnlyGap == Done /\ FixS1 /\ ~FixQ1 /\ diffPaths \cap Quoted = {} => examined = Expected
 \* with the first coding the only difference is a diff path under a directory named "b" at the root
 S1IsTheOnlyGap == Done /\ ~FixS1 /\ (\A p \in diffPaths : p.dirs = <<>> \/ Head(p.dirs) # "b") => examined = Expected
-NothingOutsideTree == FixS1 => examined \subseteq Tree
+NothingOutsideTree == FixS1 /\ FixQ1 => examined \subseteq Tree
 TypeOK == pc \in {"walk", "diff", "done"}
 
 Emit == Done => PrintT(<<"CASE", ToJson([globs |-> globs, ignores |-> ignores, diff |-> diffPaths, terminal |-> terminal,
